@@ -342,6 +342,17 @@ let handle (line : string) : string =
         | L [path; A stdin; id; v] -> (((str_of_sx path, stdin = "1"), Hashtbl.find docs (int_of_sx id)), Some (value_of_sx v))
         | _ -> failwith "cli file" in
       "S " ^ show_str (M.cli_stdout ser fl (List.map file files))
+  | L [A "pq"; id; root; L nss; L vars; L funs; A asis; text] ->
+      (match M.parse_string (asis = "1") (str_of_sx text) with
+       | None -> "E build"
+       | Some e ->
+           let d = Hashtbl.find docs (int_of_sx id) in
+           let en = { M.e_doc = d; M.e_root = path_of_sx root;
+                      M.e_ns = List.map (function L [A "ns"; a; b] -> (str_of_sx a, str_of_sx b) | _ -> failwith "ns") nss;
+                      M.e_vars = List.map (function L [A "v"; a; b; v] -> (qname_of a b, value_of_sx v) | _ -> failwith "var") vars;
+                      M.e_funs = List.map (function L [A "fn"; a; b; f] -> (qname_of a b, ufun_of_sx f) | _ -> failwith "fn") funs;
+                      M.e_asis = false } in
+           show_res (M.exec en e))
   | L [A "sv"; id; p] -> "S " ^ show_str (M.string_value (Hashtbl.find docs (int_of_sx id)) (path_of_sx p))
   | L [A "tostr"; A h] -> "S " ^ show_str (M.num_to_str (M.f_of_bits (z_of_hex h)))
   | L [A "tonum"; v] -> "N " ^ show_num (M.str_to_num (str_of_sx v))
